@@ -372,38 +372,63 @@ Definition cothers (o : cop) : cop :=
   | None => o
   end.
 
+Definition find_status (st : N) (rs : cop) : option cresp :=
+  find (fun r => match cr_code r with Num m => m =? st | _ => false end) rs.
+(* a response declared under the range key "2XX": `case _ if 200 <= response.status_code < 300:` after the numeric cases *)
+Definition wildcard_resp (o : cop) : option cresp := find (fun r => is_wildcard_2xx (cr_code r)) (cothers o).
+(* resp_ir == primary_success_ir *)
+Definition is_strategy_resp (o : cop) (r : cresp) : bool :=
+  match cprimary o with Some p => resp_eqb (to_resp r) (to_resp p) | None => false end.
+
 Definition handle (reg : registry) (o : cop) (st : N) (ct : str) : path :=
   let s := resolve o in
   let prim_path := if is_none_ret s then PNone else strategy_path reg s ct in
+  (* `case _:` — a default response with content returns only under `if 200 <= status < 300:` *)
+  let default_branch :=
+    if default_returns (map to_resp o) && in_range default_success_lo default_success_hi st then prim_path else PRaiseHTTP in
+  let after_primary :=
+    match find_status st (cothers o) with
+    | Some r => match cr_code r with
+                | Num m => if lead2 m then secondary_path reg r else PRaiseHTTP
+                | _ => PRaiseHTTP
+                end
+    | None => match wildcard_resp o with
+              | Some w => if in_range wildcard_lo wildcard_hi st
+                          then (if is_strategy_resp o w then prim_path else secondary_path reg w)
+                          else default_branch
+              | None => default_branch
+              end
+    end in
   match cprocessed o with
-  | Some (_, n) => if n =? st then prim_path else
-      match find (fun r => match cr_code r with Num m => m =? st | _ => false end) (cothers o) with
-      | Some r => match cr_code r with
-                  | Num m => if lead2 m then secondary_path reg r else PRaiseHTTP
-                  | _ => PRaiseHTTP
-                  end
-      | None => match fallback (map to_resp o) with AReturn => prim_path | _ => PRaiseHTTP end
-      end
-  | None =>
-      match find (fun r => match cr_code r with Num m => m =? st | _ => false end) (cothers o) with
-      | Some r => match cr_code r with
-                  | Num m => if lead2 m then secondary_path reg r else PRaiseHTTP
-                  | _ => PRaiseHTTP
-                  end
-      | None => match fallback (map to_resp o) with AReturn => prim_path | _ => PRaiseHTTP end
-      end
+  | Some (_, n) => if n =? st then prim_path else after_primary
+  | None => after_primary
   end.
 
-(* the endpoints module imports structure_from_dict only when some operation's PRIMARY (or default) branch
-   renders a direct structure_from_dict return; secondary-2xx branches and the content-type switch do not
-   register the import *)
+(* structure_from_dict is imported by every branch that renders it: the primary/default strategy branch, the
+   entries of a content-type switch, and every secondary 2xx branch (numeric or the "2XX" range) *)
+Definition strategy_registers (reg : registry) (s : strategy) : bool :=
+  negb (is_none_ret s) && negb (st_streaming s)
+  && if prefixb (s_Union ++ s_lb) (show (st_ret s)) then
+       match st_mapping s with
+       | Some m => existsb (fun kt => negb (str_eqb (show (snd kt)) s_bytes) && negb (str_eqb (show (snd kt)) s_str)
+                                      && should_use_cattrs reg (show (snd kt))) m
+       | None => false
+       end
+     else should_use_cattrs reg (show (st_ret s)).
+Definition emits_strategy (o : cop) : bool :=
+  match cprocessed o with Some _ => true | None => false end
+  || match wildcard_resp o with Some w => is_strategy_resp o w | None => false end
+  || default_returns (map to_resp o).
+Definition is_secondary_2xx (o : cop) (r : cresp) : bool :=
+  match cr_code r with
+  | Num m => lead2 m
+  | c => is_wildcard_2xx c && negb (is_strategy_resp o r)
+  end.
+Definition secondary_registers (reg : registry) (r : cresp) : bool :=
+  match handler_schema (cr_content r) with Some e => should_use_cattrs reg (show (c_type e)) | None => false end.
 Definition registers_cattrs (reg : registry) (o : cop) : bool :=
-  let s := resolve o in
-  let has_branch := match cprocessed o with Some _ => true | None => false end
-                    || match fallback (map to_resp o) with AReturn => true | _ => false end in
-  has_branch && negb (is_none_ret s) && negb (st_streaming s)
-  && negb (prefixb (s_Union ++ s_lb) (show (st_ret s)))
-  && should_use_cattrs reg (show (st_ret s)).
+  emits_strategy o && strategy_registers reg (resolve o)
+  || existsb (fun r => is_secondary_2xx o r && secondary_registers reg r) (cothers o).
 Definition module_has_cattrs (reg : registry) (ops : list cop) : bool := existsb (registers_cattrs reg) ops.
 
 (* ------------------------------------------------------------------ the property, on the decision model *)
@@ -450,8 +475,18 @@ Definition the_cop (d : dcase) : cop := nth (d_op d) (d_module d) [].
 Definition the_resp (d : dcase) : cresp := nth (d_resp d) (the_cop d) {| cr_code := Default; cr_content := [] |}.
 Definition the_entry (d : dcase) : option centry :=
   match d_entry d with Some i => nth_error (cr_content (the_resp d)) i | None => None end.
-(* the status the server answers with: the declared code; 200 for a wildcard key such as "2XX" *)
-Definition the_status (d : dcase) : N := match cr_code (the_resp d) with Num n => n | _ => 200 end.
+(* the status the server answers with: the declared code; for a range key such as "2XX" the first status of
+   200..299 that the operation does not also declare numerically *)
+Definition declared_num (o : cop) (n : N) : bool :=
+  existsb (fun r => match cr_code r with Num m => m =? n | _ => false end) o.
+Definition the_status (d : dcase) : N :=
+  match cr_code (the_resp d) with
+  | Num n => n
+  | _ => match find (fun n => negb (declared_num (the_cop d) n)) (map N.of_nat (seq 200 100)) with
+         | Some n => n
+         | None => 200
+         end
+  end.
 Definition the_ctype (d : dcase) : str := match the_entry d with Some e => lower_s (c_media e) | None => [] end.
 
 Definition the_path (d : dcase) : path := handle (d_reg d) (the_cop d) (the_status d) (the_ctype d).
@@ -463,10 +498,10 @@ Definition the_annotation (d : dcase) : str := show (st_ret (resolve (the_cop d)
 (* ---- guards, all on the INPUT (operation shape and rendered types) *)
 Definition heuristic_ok (reg : registry) (t : rty) : bool :=
   Bool.eqb (should_use_cattrs reg (show t)) (needs_structure t).
-Definition is_primary_case (d : dcase) : bool :=
+Definition is_primary_case (d : dcase) : bool :=        (* the response is handled with the response strategy *)
   match cprocessed (the_cop d) with
   | Some (p, _) => resp_eqb (to_resp p) (to_resp (the_resp d))
-  | None => false
+  | None => is_wildcard_2xx (cr_code (the_resp d)) && is_strategy_resp (the_cop d) (the_resp d)
   end.
 Definition same_entry (a b : centry) : bool := str_eqb (c_media a) (c_media b).
 Definition the_want (d : dcase) : want := ideal (is_primary_case d) (the_resp d) (the_entry d).
@@ -476,10 +511,8 @@ Definition the_want (d : dcase) : want := ideal (is_primary_case d) (the_resp d)
 Definition emits_yield (o : cop) : bool :=
   let s := resolve o in
   st_streaming s && negb (is_none_ret s)
-  && (match cprocessed o with Some _ => true | None => false end
-      || match fallback (map to_resp o) with AReturn => true | _ => false end).
-Definition emits_value_return (o : cop) : bool :=
-  existsb (fun r => match cr_code r with Num m => lead2 m | _ => false end) (cothers o).
+  && emits_strategy o.
+Definition emits_value_return (o : cop) : bool := existsb (is_secondary_2xx o) (cothers o).
 Definition module_syntax_ok (ops : list cop) : bool :=
   forallb (fun o => negb (emits_yield o && emits_value_return o)) ops.
 
@@ -519,16 +552,9 @@ Definition guard_F05c (d : dcase) : bool :=
             || negb (mem_str (show (ctype_to_python e)) [s_str; s_bytes]))
       else negb (single || collapsed || negb (is_primary_case d))
   end.
-(* F05e: a structure_from_dict(...) return in a module that never imports it *)
-Definition guard_F05e (d : dcase) : bool :=
-  match the_path d with PStructure _ => the_imported d | _ => true end.
 (* F05f: line/record streams (ndjson, json-seq, multipart) are read with the SSE parser *)
 Definition guard_F05f (d : dcase) : bool :=
   match the_want d with WStreamItems => false | _ => true end.
-(* F05g: the response is declared under a wildcard key ("2XX"): no case is generated for it *)
-Definition guard_F05g (d : dcase) : bool :=
-  match cr_code (the_resp d) with Num _ => true | _ => false end.
-
 (* F05h: some operation of the module is an async generator with a `return <value>` branch (SyntaxError) *)
 Definition guard_F05h (d : dcase) : bool := module_syntax_ok (d_module d).
 (* F05i: a JSON response whose type the single return annotation does not cover (secondary 2xx of another type) *)
@@ -540,4 +566,4 @@ Definition guard_F05i (d : dcase) : bool :=
   end.
 
 Definition c05_guard (d : dcase) : bool :=
-  guard_F05b d && guard_F05c d && guard_F05e d && guard_F05f d && guard_F05g d && guard_F05h d && guard_F05i d.
+  guard_F05b d && guard_F05c d && guard_F05f d && guard_F05h d && guard_F05i d.
